@@ -268,6 +268,7 @@ class VecProcLoop(_CfgLoop):
 class Vectorize(Contract):
     global_writes_allowed = (HVQ,)
     qualname = HVQ + ".vectorize"
+    optional_params_modelled = ("vector",)       # both call shapes are verified (variants fresh-vector / given-row)
     tags = {"": ("C09", "C19", "C04", "C01", "C08")}      # tensorize's C01 / C08 clauses rest on the row this writes
 
     def modifies(self, I, S):
